@@ -559,19 +559,25 @@ class ClassStub(Stub):
         self.name = name
         self.function_stubs: Dict[str, FunctionStub] = {}
         self.attribute_stubs = attribute_stubs or []
+        # classes nested in this class, by name
+        self.class_stubs: Dict[str, "ClassStub"] = {}
         if function_stubs is not None:
             self.function_stubs = {stub.name: stub for stub in function_stubs}
 
-    def render(self, strip_modules: Iterable[str] = ()) -> str:
+    def render(self, strip_modules: Iterable[str] = (), prefix: str = "") -> str:
         parts = [
-            f"class {self.name}:",
+            f"{prefix}class {self.name}:",
             *[
-                stub.render(prefix="    ", strip_modules=strip_modules)
+                stub.render(prefix=prefix + "    ", strip_modules=strip_modules)
                 for stub in sorted(self.attribute_stubs, key=lambda stub: stub.name)
             ],
             *[
-                stub.render(prefix="    ")
+                stub.render(prefix=prefix + "    ")
                 for _, stub in sorted(self.function_stubs.items())
+            ],
+            *[
+                stub.render(strip_modules, prefix=prefix + "    ")
+                for _, stub in sorted(self.class_stubs.items())
             ],
         ]
         return "\n".join(parts)
@@ -704,7 +710,10 @@ class ModuleStub(Stub):
         strip_modules: Set[str] = set()
         for func_stub in self.function_stubs.values():
             strip_modules.update(func_stub.strip_modules)
-        for class_stub in self.class_stubs.values():
+        class_stubs = list(self.class_stubs.values())
+        while class_stubs:
+            class_stub = class_stubs.pop()
+            class_stubs.extend(class_stub.class_stubs.values())
             for func_stub in class_stub.function_stubs.values():
                 strip_modules.update(func_stub.strip_modules)
         for typed_dict_class_stub in sorted(
@@ -862,10 +871,6 @@ def build_module_stubs(entries: Iterable[FunctionDefinition]) -> Dict[str, Modul
         path = entry.qualname.split(".")
         name = path.pop()
         class_path = path
-        # TODO: Handle nested classes
-        klass = None
-        if len(class_path) > 0:
-            klass = ".".join(class_path)
         if entry.module not in mod_stubs:
             mod_stubs[entry.module] = ModuleStub()
         mod_stub = mod_stubs[entry.module]
@@ -882,10 +887,14 @@ def build_module_stubs(entries: Iterable[FunctionDefinition]) -> Dict[str, Modul
         # Don't need to import anything from the same module
         imports.pop(entry.module, None)
         mod_stub.imports_stub.imports.merge(imports)
-        if klass is not None:
-            if klass not in mod_stub.class_stubs:
-                mod_stub.class_stubs[klass] = ClassStub(klass)
-            class_stub = mod_stub.class_stubs[klass]
+        if class_path:
+            # methods of nested classes go into class stubs nested in the same way
+            class_stubs = mod_stub.class_stubs
+            for klass in class_path:
+                if klass not in class_stubs:
+                    class_stubs[klass] = ClassStub(klass)
+                class_stub = class_stubs[klass]
+                class_stubs = class_stub.class_stubs
             class_stub.function_stubs[func_stub.name] = func_stub
         else:
             mod_stub.function_stubs[func_stub.name] = func_stub
